@@ -97,10 +97,18 @@ Deliver(st, msgs, k, src, via, log) ==
 NonAscii(s) == \E i \in 1..Len(s) : s[i] >= 128
 MsgGrey(m) == \/ NonAscii(m.a)
               \/ \E i \in 1..Len(m.args) : m.args[i].t \in {"[", "]"} \/ (m.args[i].t = "s" /\ NonAscii(m.args[i].b))
+\* nesting depth of a decoded packet (a message: 0).  OSC 1.0 puts no bound on it; a receiver has finite resources:
+\* up to MaxNest levels must be delivered, deeper ones only must not raise / hang / stop the receiver
+RECURSIVE BDepth(_)
+BDepth(d) == IF d.k # "bundle" THEN 0
+             ELSE 1 + (IF d.el = <<>> THEN 0
+                       ELSE LET ds == {BDepth(d.el[i]) : i \in 1..Len(d.el)} IN CHOOSE x \in ds : \A y \in ds : y <= x)
+MaxNest == 16
 \* "good": must be delivered exactly; "bad": must invoke nothing; "grey": only no raise / no hang
 Class(d, st) ==
     IF d.k = "bad" THEN "bad"
     ELSE IF d.k \in {"grey", "greymsg"} \/ (d.k = "bundle" /\ d.grey) THEN "grey"
+    ELSE IF BDepth(d) > MaxNest THEN "grey"
     ELSE LET ms == FlatB(d) IN
          IF \E k \in 1..Len(ms) : MsgGrey(ms[k]) THEN "grey"
          \* a pattern whose meaning OSC 1.0 leaves open, with a matching responder listening
